@@ -177,16 +177,31 @@ func newRunner(h History) *runner {
 	return r
 }
 
+// identOf: which identity of a pool of k a login uses (a fixed scrambling of its id: neighbours may or may not agree)
+func identOf(id, k int) int {
+	if k <= 1 {
+		return 0
+	}
+	return int((uint64(id+1)*0x9E3779B97F4A7C15)>>33) % k
+}
+
 func (r *runner) mkLogin(l *HLogin) common.RemoteUserLogin {
 	r.logByID[l.ID] = l
+	// the login's id is carried by the client port (decodeEmitted reads it back from there); account, credential and
+	// address are the login's own, or come from a small pool (History.IdentPool)
+	who, addr := l.ID, fmt.Sprintf("10.0.%d.%d", l.ID/250, l.ID%250)
+	if k := r.h.IdentPool; k > 0 {
+		who = identOf(l.ID, k)
+		addr = fmt.Sprintf("10.9.0.%d", who)
+	}
 	src := auditevent.NewAuditEvent(common.ActionLoginIdentifier,
-		auditevent.EventSource{Type: "IP", Value: fmt.Sprintf("10.0.%d.%d", l.ID/250, l.ID%250), Extra: map[string]any{"port": strconv.Itoa(40000 + l.ID)}},
+		auditevent.EventSource{Type: "IP", Value: addr, Extra: map[string]any{"port": strconv.Itoa(40000 + l.ID)}},
 		auditevent.OutcomeSucceeded,
-		map[string]string{"loggedAs": fmt.Sprintf("user-%d", l.ID), "userID": fmt.Sprintf("cert-%d", l.ID), "pid": strconv.Itoa(l.PID)},
+		map[string]string{"loggedAs": fmt.Sprintf("user-%d", who), "userID": fmt.Sprintf("cert-%d", who), "pid": strconv.Itoa(l.PID)},
 		"sshd").WithTarget(map[string]string{"host": "node", "machine-id": "mid"})
 	src.LoggedAt = r.bounds[l.AtIdx]
 	r.logins[src] = l.ID
-	rul := common.RemoteUserLogin{Source: src, PID: l.PID, CredUserID: fmt.Sprintf("cert-%d", l.ID)}
+	rul := common.RemoteUserLogin{Source: src, PID: l.PID, CredUserID: fmt.Sprintf("cert-%d", who)}
 	switch l.Invalid {
 	case "nosource":
 		rul.Source = nil
@@ -259,9 +274,13 @@ func (r *runner) dump() (stateDump, error) {
 
 func decodeEmitted(m map[string]any, opIdx int) (emitted, error) {
 	e := emitted{LoginID: -1, EventID: -1, OpIdx: opIdx}
-	if subj, ok := m["subjects"].(map[string]any); ok {
-		if s, ok := subj["loggedAs"].(string); ok {
-			fmt.Sscanf(s, "user-%d", &e.LoginID)
+	if src, ok := m["source"].(map[string]any); ok {
+		if ex, ok := src["extra"].(map[string]any); ok {
+			if s, ok := ex["port"].(string); ok {
+				if p, err := strconv.Atoi(s); err == nil && p >= 40000 {
+					e.LoginID = p - 40000
+				}
+			}
 		}
 	}
 	if md, ok := m["metadata"].(map[string]any); ok {
@@ -600,6 +619,7 @@ func main() {
 		if h.Debug {
 			sum.Dist("debug_logging_on")
 		}
+		sum.Dist(fmt.Sprintf("identity_pool_%d", h.IdentPool))
 		if !withCoq {
 			sum.Dist("judged_by_the_oracle_only_(no_Coq_case)")
 		}
@@ -627,10 +647,14 @@ func main() {
 	modes := modesFor(*prop)
 	// serials, timestamps and the records' other fields: from a generator of their own (fields.go)
 	dr := hutil.NewRand(seed ^ hashStr(*prop) ^ hashStr("fields"))
+	// whose identity a login carries: its own, or one of a small pool (generator of its own again)
+	ir := hutil.NewRand(seed ^ hashStr(*prop) ^ hashStr("identities"))
+	identPools := []int{0, 0, 1, 2, 3}
 	for i := 0; i < *n; i++ {
 		m := modes[i%len(modes)]
 		h := genHistory(r, m, *maxSess)
 		h.Serials, h.Stamps = decorate(dr, h.Ops, h.Plans)
+		h.IdentPool = hutil.Pick(ir, identPools)
 		process(m, h, true)
 	}
 	// further families, each from a generator of its own (the histories above stay what they were)
@@ -643,6 +667,7 @@ func main() {
 		for i := 0; i < cnt; i++ {
 			h := fam.gen(fr)
 			h.Serials, h.Stamps = decorate(fr, h.Ops, h.Plans)
+			h.IdentPool = hutil.Pick(ir, identPools)
 			process(fam.name, h, fam.coq)
 		}
 	}
@@ -748,6 +773,7 @@ func familiesFor(prop string) []family {
 func ruleText(prop string) string {
 	return "histories generated per mode (wf: unique pids/sessions; reuse: chains of sessions sharing a PID; mixed: plus cron/console/su-like sessions and records without session; " +
 		"cleanup: cleanup calls with cut-offs at earlier time boundaries; faults: invalid logins, unparsable PIDs, write budget), 1-6 sessions interleaved in bursts, login at a random split point of its session; " +
+		"logins carry identities of their own or (3 of 5 histories: a pool of 1, 2 or 3) accounts, credentials and client addresses drawn from a small pool, so that different sshd processes - also successive ones of a re-used pid - log in with equal credentials from the same address; only the client port and the log time tell such logins apart; " +
 		"every record carries a kernel serial (per history: all zero, increasing, all equal, decreasing, wrapping through 2^32, late lower-numbered records, arbitrary), a timestamp of its own (2023, around / before / after the wall clock, descending) and the other fields the coalescer delivers (old-ses, old-auid, auid, tty, terminal, ppid, exe, addr, acct) with values naming OTHER sessions, pids and users of the history - none of which the properties mention; " +
 		"family relogin (C16): a pid logs in 2-3 times before its LOGIN record, cleanup cut-offs between the log times of an earlier and the last login (the last must stay waiting; its session is correlated); " +
 		"family overtake (C09): chains of sessions opened by one re-used pid, the new login anywhere after the previous login and LOGIN record - before, between and after the ended session's last records; " +
